@@ -99,6 +99,11 @@ func runC09(c *Ctx) {
 										if anyDominates(nilEdges(buf, true), pred) {
 											okNull = true
 										}
+										for _, ne := range nilEdges(buf, true) { // the phi edge itself is the nil edge
+											if ne.from == pred && ne.to() == ph.Block() {
+												okNull = true
+											}
+										}
 									}
 								}
 							}
